@@ -28,8 +28,9 @@ RULE = ('scenario = (generated world, pooled stage); inside it the complete grid
         '(child trace / kill record); distinct by (stage, world, worker, mode, point, k)')
 ASSUMPTIONS = [
     'the grid is complete per (world, stage); worlds and schedules are sampled',
-    'mid-way crash points are the I/O seam events of the worker (HDF5 opens, open() calls, manager RPCs outside '
-    'lock-protected sections); crash points inside a single numpy/HDF5 call are out of reach',
+    'mid-way crash points are the I/O seam events of the worker (HDF5 opens, every dataset creation and write, '
+    'open() calls, manager RPCs outside lock-protected sections); crash points inside a single numpy/HDF5 call are '
+    'out of reach',
     '"a later stage would accept as complete" is decided by running the real consuming stage on whatever is left',
 ]
 STAGE_CYCLE = ['mapping', 'stats', 'refmarkers', 'pmask', 'pmask_markers', 'qmarkers', 'transpose',
@@ -169,6 +170,9 @@ def run(scn, sb):
     viol = res['violations']
     rng = random.Random(scn['seed'])
     common.begin(sb, scn['kcfg'])
+    # fine-grained seam events (every HDF5 dataset creation / write) are crash points too, so a
+    # worker can die with its output file half written
+    KERNEL.fine_io = True
     try:
         ctx = stages.prepare(scn, sb)
         # ---- fault-free probe run: how many workers, how many seam events each
@@ -219,6 +223,7 @@ def run(scn, sb):
                 if rng.random() < 0.3:
                     fault['mode'] = 'sysexit'
             sched = common.draw_sched(rng)
+            sched['cleanup_yields'] = rng.choice([0, 0, 0.5, 1.0])
             # the fault targets worker w of the ci-th pool of the stage; pools are separate calls
             sched['faults_by_call'] = {str(ci): {str(w): fault}}
             n0 = len(KERNEL.calls)
@@ -260,6 +265,7 @@ def run(scn, sb):
         res['ticks'] = KERNEL.n_ticks
         return res
     finally:
+        KERNEL.fine_io = False
         sb.end()
 
 
